@@ -129,6 +129,7 @@ class SimEntropy:
         self.scripted: t.Dict[t.Any, t.List[bytes]] = collections.defaultdict(list)  # key: n or (source, n)
         self.op = "-"
         self.frozen: t.Optional[bytes] = None  # if set every draw returns this pattern (sensitivity experiments)
+        self.keep_ledger = True  # (very long runs switch the ledger off)
         self.fail_sources: t.Set[str] = set()  # entropy sources that raise instead of answering ("urandom", "aesgcm.generate_key")
 
     def draw(self, n: int, source: str = "urandom") -> bytes:
@@ -154,7 +155,8 @@ class SimEntropy:
             if n > len(out):  # very large draws: repeat the 4 KiB block (still unique per draw through its first block)
                 out = out * (n // len(out) + 1)
             out = out[:n]
-        self.ledger.append((self.counter, self.op, n, out.hex()))
+        if self.keep_ledger:
+            self.ledger.append((self.counter, self.op, n, out.hex()))
         self.counter += 1
         return out
 
